@@ -465,3 +465,48 @@ class digits_zeros:
             digits_prefix(ds + S.repeat_tuple((0,), k - 1), (0,), len(ds) + k - 1)
         else:
             digits_prefix(ds, (), len(ds))
+
+
+import spec.container as C
+
+
+@lemma("header_schema_ok")
+class header_schema_ok:
+    """the container header's schema (a literal) is well-formed and has no field defaults"""
+    types = dict(o="dict")
+    fuel = 8
+    timeout = 60
+    opaque_here = ["VALID", "SEL", "STRIP", "DEFER_DOUBLE", "FIRST_NONREC", "BEST_REC", "ENC", "CONFORMS"]
+    unfold_here = ["NS_CLEAN"]
+    ensures = lambda o: A.WF(C.HEADER_SCHEMA, {}) and A.DEFAULTS_DATA(C.HEADER_SCHEMA, {}, o)
+
+    def body(o):
+        pass
+
+
+@lemma("bytes_valid_conform")
+class bytes_valid_conform:
+    """values that validate as `bytes` conform to `bytes` (two spellings of 'is a bytes object')"""
+    types = dict(xs="list", k="int")
+    requires = lambda xs, k: 0 <= k and A.ALL_VALID(xs, "bytes", {}, {}, k)
+    ensures = lambda xs, k: A.ALL_CONFORM(xs, "bytes", {}, {}, k)
+    decreases = lambda xs, k: len(xs) - k if k <= len(xs) else 0
+
+    def body(xs, k):
+        if k < len(xs):
+            bytes_valid_conform(xs, k + 1)
+
+
+@lemma("header_conforms")
+class header_conforms:
+    """a header record with a string-keyed map of bytes and a 16-byte marker conforms to the header schema"""
+    types = dict(d="dict", sync="bytes")
+    fuel = 8
+    timeout = 60
+    opaque_here = ["ALL_STR", "ALL_CONFORM", "VALID", "SEL", "STRIP", "DEFER_DOUBLE", "FIRST_NONREC", "BEST_REC", "ENC"]
+    requires = lambda d, sync: (
+        len(sync) == 16 and A.ALL_STR(list(d), 0) and A.ALL_CONFORM(list(d.values()), "bytes", {}, {}, 0))
+    ensures = lambda d, sync: A.CONFORMS({"magic": b"Obj\x01", "meta": d, "sync": sync}, C.HEADER_SCHEMA, {}, {})
+
+    def body(d, sync):
+        pass
